@@ -140,6 +140,12 @@ OpCount(e) ==
     [] e.k \in {"like", "isnull", "cast", "insub", "in"} -> 1 + OpCount(e.e)
     [] OTHER -> 0
 
+\* The named builder methods of ExprTrait / PgExpr / SqliteExpr and the operator each one is documented to build
+\* (a case may ask for a binary node to be built through its method: field "m"); the harness calls exactly that
+\* method, so a method that builds another operator makes the rendering re-parse to a different tree.
+MethodOp == JsonDeserialize("expr_methods.json")
+MethodOk(e) == "m" \notin DOMAIN e \/ (e.m \in DOMAIN MethodOp /\ MethodOp[e.m] = e.op /\ (e.m \in {"equals", "not_equals"} => e.r.k = "col"))
+
 \* the tree the engine model recovers from "SELECT <expr>" ([ok, tr])
 ParsedOf(B, sql) ==
   LET T == Norm(Lex(B, sql)) IN
